@@ -113,9 +113,13 @@ TEXTS = {
                  "both, alias symbols are not listed, every listed id exists and has the lister as parent, parent chains "
                  "reach the root, root paths are unique and exist for definition chains, export ids exist, declarations "
                  "carry the symbol's name and a range inside the text) and run on the real table of every module of the "
-                 "symbol/graph spec corpus and of generated programs. (c) go-to-definition: NOT modelled; called on every "
-                 "symbol under a watchdog, results judged by a proved-sound checker (definition declaration that exists "
-                 "in the dump, or explicit unresolved marker). Three genuine defects are recorded as known findings: "
+                 "symbol/graph spec corpus and of generated programs. (c) go-to-definition: find_definition_paths_internal / "
+                 "go_to_file_export are modelled for the fragment without qualified names; for ALL tables the model "
+                 "terminates with fuel = number of symbols + 1 and yields only existing Definition declarations or "
+                 "explicit markers (C16_goto_terminates_partial, C16_goto_sound_partial); the real ordered results of "
+                 "every symbol are compared with the model on every program without an `import X = A.B` declaration. "
+                 "Qualified names are not modelled - with them termination is false (F-C16c); there the real queries "
+                 "run under a watchdog and their results are judged by a proved-sound checker. Three genuine defects are recorded as known findings: "
                  "F-C16a (valid TypeScript: a dotted namespace segment re-declared in its body becomes its own child), "
                  "F-C16b (TypeScript-invalid conflicting declarations yield mixed alias/definition symbols; includes one "
                  "of the repository's own specs), F-C16c (a circular import alias makes go-to-definition overflow the "
@@ -125,8 +129,9 @@ TEXTS = {
                  "(ids from SymbolId's Debug form, names interned, ranges relative to the text start), its TS program "
                  "generator, the spec-file parser, and - for known-finding classification only - its computation of the "
                  "three input classes from the swc AST of the sources. (b) and (c) are translation validation of explored "
-                 "outputs, not proofs about the builder; termination of go-to-definition is observed (5 s watchdog, child "
-                 "process for the known crashing class), not proved."),
+                 "outputs, not proofs about the builder; termination of go-to-definition through qualified names is "
+                 "observed (5 s watchdog, child process for the known crashing class), not proved; the harness also "
+                 "supplies, per declaration, the symbol an swc id maps to and resolve_dependency's answer (data)."),
         "technique": "Coq proof (DFS with shared visited set: invariant + closure argument giving the least fixed point; fuel bound) + differential testing of the extracted model against ModuleInfoRef::exports + proved-sound checkers (translation validation) on real symbol tables and go-to-definition results + watchdog",
     },
 }
